@@ -85,3 +85,47 @@ UNITS.append(Unit('C13_ar', 'C13', [fit, predict_one],
                   spec=SPEC, preludes=PRE, broadcast=BC, level='L1', rlimit=100,
                   notes='AR::fit is the Yule-Walker composition (mean, centring, autocorrelations 0..p, Toeplitz system through invert_matrix and a matrix-vector product, reversed storage) '
                         'and depends on the data only; predict_one is the dot product of the last p values with the stored coefficients'))
+
+AR_PRED_SPEC = r'''
+/// the forecasting recursion on the centred history (property C13): d starts with the last p centred observations,
+/// every further entry is the dot product of the p entries before it with the stored coefficients
+pub open spec fn ar_path(data: Seq<f64>, coeffs: Seq<f64>, intercept: f64, n: int, d: Seq<f64>) -> bool {
+    let cl = coeffs.len() as int;
+    d.len() == cl + n
+    && (forall|i: int| 0 <= i < cl ==> #[trigger] d[i] == f_sub(data[data.len() - cl + i], intercept))
+    && (forall|i: int| cl <= i < cl + n ==> rv(#[trigger] d[i]) == dsum(d.subrange(i - cl, i), coeffs, cl))
+}
+pub open spec fn ar_forecast(data: Seq<f64>, coeffs: Seq<f64>, intercept: f64, n: int, r: Seq<f64>) -> bool {
+    exists|d: Seq<f64>| #[trigger] ar_path(data, coeffs, intercept, n, d) && r.len() == n
+        && (forall|j: int| 0 <= j < n ==> #[trigger] r[j] == f_add(d[coeffs.len() + j], intercept))
+}
+'''
+predict = Fn(IA + 'predict', ret='r', level='L1',
+             requires=['C13.predict.history:: self.coeffs@.len() <= data@.len()', 'C13.predict.machine:: self.coeffs@.len() + n <= 0x7fff_ffff'],
+             ensures=['C13.predict.recursion:: ar_forecast(data@, self.coeffs@, self.intercept, n as int, r@)'],
+             rewrites=[('x - self.intercept', '*x - self.intercept', DEREF),
+                       ('d.extend(forecasts);', 'd.extend_from_slice(&forecasts);', 'R36: `Vec::extend` with a `Vec<f64>` argument appends its elements in order, i.e. `extend_from_slice(&v)` (std; no vstd spec for `extend`)'),
+                       ('.collect();\n', '.collect::<Vec<f64>>();\n', 'R26b: collect target named (the annotated type of the binding)'),
+                       ('d[d.len() - n..].to_vec().iter().map(|x| x + self.intercept).collect()',
+                        '({ let ghost dfin_ = d@; let tv_ = d[d.len() - n..].to_vec(); '
+                        'proof { assert(tv_@.len() == n); assert forall|j: int| 0 <= j < n implies #[trigger] tv_@[j] == dfin_[self.coeffs@.len() + j] by { assert(cloned::<f64>(d@.subrange(d@.len() - n, d@.len() as int)[j], tv_@[j])); } } '
+                        'let out_: Vec<f64> = tv_.iter().map(|x| *x + self.intercept).collect::<Vec<f64>>(); '
+                        'proof { assert(ar_path(data@, self.coeffs@, self.intercept, n as int, dfin_)); assert(out_@.len() == n); '
+                        'assert forall|j: int| 0 <= j < n implies #[trigger] out_@[j] == f_add(dfin_[self.coeffs@.len() + j], self.intercept) by { } '
+                        'assert(ar_forecast(data@, self.coeffs@, self.intercept, n as int, out_@)); } out_ })',
+                        'R31 + R17 + R26b: result bound to a name (collect target = the return type, `&f64 + f64` as `*x + rhs`)')],
+             closures={1: {'params': 'x: &f64', 'ret': 'o: f64', 'ensures': ['o == f_sub(*x, self.intercept)']},
+                       2: {'params': 'x: &f64', 'ret': 'o: f64', 'ensures': ['o == f_add(*x, self.intercept)']}},
+             loops={1: {'iter_name': 'it',
+                        'invariant': ['it.iter.end == self.coeffs@.len() + n', 'd@.len() == self.coeffs@.len() + n', 'self.coeffs@.len() <= data@.len()',
+                                      'C13.predict.history.inv:: forall|k: int| 0 <= k < self.coeffs@.len() ==> #[trigger] d@[k] == f_sub(data@[data@.len() - self.coeffs@.len() + k], self.intercept)',
+                                      'C13.predict.recursion.inv:: forall|k: int| self.coeffs@.len() <= k < i ==> rv(#[trigger] d@[k]) == dsum(d@.subrange(k - self.coeffs@.len(), k), self.coeffs@, self.coeffs@.len() as int)'],
+                        'body_ghost': 'let ghost pre_d = d@;',
+                        'body_end': ('assert(pre_d.subrange(0, i as int).subrange(i - self.coeffs@.len(), i as int) =~= pre_d.subrange(i - self.coeffs@.len(), i as int)); '
+                                     'assert forall|k: int| self.coeffs@.len() <= k < i + 1 implies rv(#[trigger] d@[k]) == dsum(d@.subrange(k - self.coeffs@.len(), k), self.coeffs@, self.coeffs@.len() as int) by '
+                                     '{ assert(d@.subrange(k - self.coeffs@.len(), k) =~= pre_d.subrange(k - self.coeffs@.len(), k)); }')}},
+             hints=[('d.extend_from_slice(&forecasts);', 'after', 'let ghost d0_ = d@;'),
+                    ])
+UNITS.append(Unit('C13_ar_predict', 'C13', [predict], use=[predict_one], types=core.TYPES + [AR_STRUCT], type_spec=core.TYPE_SPEC,
+                  spec=SPEC + AR_PRED_SPEC, preludes=PRE, broadcast=BC, level='L1', rlimit=100,
+                  notes='AR::predict runs the forecasting recursion on the centred history (each forecast is the dot product of the p values before it with the coefficients) and adds the intercept back'))
